@@ -109,8 +109,21 @@ static void user_pub_case(const KSI_Policy *policy, const char *pname, int form,
 /* ------------------------------------------------------------------ publications file policy */
 enum { F_HAS_SIGPUB = 0, F_SIGPUB_OTHERHASH, F_LATER_CORRECT, F_LATER_WRONGHASH, F_ONLY_EARLIER, F_EMPTY, F_NKIND };
 static const char *FNAME[F_NKIND] = {"has-sigpub", "sigpub-otherhash", "later-correct", "later-wronghash", "only-earlier", "empty"};
-enum { SRC_USER = 0, SRC_DOWNLOAD, SRC_DOWNLOAD_ROGUE, SRC_HTTP404, SRC_CONNFAIL, SRC_NSRC };
-static const char *SNAME[SRC_NSRC] = {"user-supplied", "download", "download-rogue-signed", "http-404", "connection-failure"};
+enum { SRC_USER = 0, SRC_DOWNLOAD, SRC_DOWNLOAD_ROGUE, SRC_HTTP404, SRC_CONNFAIL, SRC_DL_ATTR_ABSENT, SRC_DL_ATTR_ABSENT_FIRST, SRC_DL_ATTR_WRONG, SRC_NSRC };
+static const char *SNAME[SRC_NSRC] = {"user-supplied", "download", "download-rogue-signed", "http-404", "connection-failure",
+                                      "download-constraint-on-absent-attribute", "download-first-constraint-on-absent-attribute", "download-second-constraint-differs"};
+/* the publications file is signed by the right certificate, but the context asks for more than that certificate has:
+ * an attribute the subject does not carry (organizational unit, after or before the e-mail constraint that matches),
+ * or an organization of another name */
+static void constrain(KSI_CTX *ctx, int src) {
+	static KSI_CertConstraint c[3];
+	memset(c, 0, sizeof c);
+	if (src == SRC_DL_ATTR_ABSENT) { c[0].oid = KSI_CERT_EMAIL; c[0].val = FX_EMAIL; c[1].oid = "2.5.4.11"; c[1].val = FX_EMAIL; }
+	else if (src == SRC_DL_ATTR_ABSENT_FIRST) { c[0].oid = "2.5.4.11"; c[0].val = "Verif Test"; c[1].oid = KSI_CERT_EMAIL; c[1].val = FX_EMAIL; }
+	else if (src == SRC_DL_ATTR_WRONG) { c[0].oid = KSI_CERT_EMAIL; c[0].val = FX_EMAIL; c[1].oid = KSI_CERT_ORGANIZATION; c[1].val = "Verif Tes"; }
+	else return;
+	if (KSI_CTX_setDefaultPubFileCertConstraints(ctx, c) != KSI_OK) vf_harness_error("setDefaultPubFileCertConstraints");
+}
 
 static void pubfile_case(const KSI_Policy *policy, const char *pname, int form, int broken, int fkind, int src, int allowed, int ext) {
 	KSI_CTX *ctx;
@@ -128,6 +141,7 @@ static void pubfile_case(const KSI_Policy *policy, const char *pname, int form, 
 	fx_pki();
 	fx_server_install(ext);
 	ctx = fx_ctx(1, src != SRC_USER);
+	constrain(ctx, src);
 	fx_make_sig(&s, form, broken, &fx_auth_cert);
 	vb_init(&sb); vb_init(&pf);
 	rs_serialize(&s, &sb);
@@ -211,6 +225,7 @@ static void key_case(const KSI_Policy *policy, const char *pname, int form, int 
 	fx_pki();
 	fx_server_install(FXE_NO_REPLY);
 	ctx = fx_ctx(0, src != SRC_USER);
+	constrain(ctx, src);
 	switch (kkind) {
 		case K_ENDS_BEFORE: na = (int64_t)FX_T0 - 1; break;
 		case K_ENDS_AT: na = (int64_t)FX_T0; break;
